@@ -452,5 +452,6 @@ pub fn run(tier: Tier) -> i32 {
         rep.bounds.push(format!("((a o1 b) o2 c) for all {} ordered triples of a pool of {n} expressions (incl. 0, 1, 1-1, a-a) and all 36 pairs of overloaded operators (+ - * / pow, both operand orders) on deep expressions, then converted to flat: complete", n * n * n));
     }
     derivative_names(&mut rep);
+    crate::derived::run_derived(&mut rep, "C04", crate::derived::Focus::Names, tier.thorough());
     rep.finish()
 }
